@@ -20,6 +20,12 @@ VARIANTS = {
     'plain': [],
     'tsan': ['-fsanitize=thread'],
     'cov': ['--coverage', '-O0'],      # py/coverage.py only
+    # the instruction set of this machine, as the project's own release flags select it (-march=native): code guarded by
+    # feature macros such as FP_FAST_FMA is only compiled in such a build (C17 runs its time-map oracle on it as well)
+    'native': ['-O2', '-march=native'],
+    # OpenMP enabled: the library's OpenMPExecutor is a real parallel loop only in such a build (C12 runs evaluations from
+    # inside an OpenMP team with it)
+    'omp': ['-fopenmp'],
 }
 
 SPLINE_DIMS = list(range(1, 11))
